@@ -3,9 +3,12 @@
 package miscp
 
 import (
+	"encoding/json"
 	"fmt"
 	"math"
+	"os"
 	"sort"
+	"strings"
 
 	"verif/core"
 	"verif/props"
@@ -27,6 +30,20 @@ func init() {
 // "mapclear-entries-left/nan-keys"): `for k := range m { delete(m, k) }`
 // cannot delete a NaN key.
 const c16IncludeNaNKeys = true
+
+// replaySig is the signature recorded in a replay file ("" if there is none).
+func replaySig(path string) string {
+	if path == "" {
+		return ""
+	}
+	var v struct {
+		Sig string `json:"sig"`
+	}
+	if b, err := os.ReadFile(path); err == nil {
+		json.Unmarshal(b, &v)
+	}
+	return v.Sig
+}
 
 func callPanics(f func()) (panicked bool) {
 	defer func() {
@@ -356,9 +373,16 @@ func runC16(r *core.Run) (bool, string) {
 		"MapClear: 8 key/value type combinations (incl. a named map type, struct/interface keys, pointer/slice values) × sizes {0,1,2,100,10000}, distinct by (type,size), plus a separate NaN-key atom; Assume/Assert: both functions × both arguments, repeated; " +
 		"WaitTimeout: schedules = class {none, signal-before, signal-during, signal-at-timeout, signal-after-timeout, broadcast-during with 1–4 waiters, storm} × {fresh Cond, Cond reused after 1–3 timed-out calls}, distinct by (class, state, timeout, waiters, earlier calls); lock state observed through a tracking sync.Locker given to sync.NewCond; " +
 		"class signal-held-across-expiry (waittimeout_hold_* keys): full grid timeout × (signaller takes the lock −20…+5 ms around the expiry) × (keeps it 0…40 ms after Signal/Broadcast) on fresh and reused Conds, run in child processes that contain no goroutine or timer besides caller, signaller and WaitTimeout's own; " +
+		"concurrency layer (conc_* keys): every primitive of package machine that takes no caller-shared state (UInt64ToString, UInt64/32 Put+Get, MapClear, Assume/Assert, RandomUint64, Linearize/TimeNow/Sleep/NewProph, WaitTimeout on a private Cond, and a mix of them) × {2,3,8,16} goroutines released together, each on state private to it and checking its own results against the sequential oracles, once in this binary (wrong results) and once in a -race build (DATA RACE blocks with a /repo frame, de-duplicated by outermost /repo frame pair); distinct by (child, primitive, goroutines); " +
 		"the call must return with the lock held; 'never returns' is decided only by the Go runtime's 'all goroutines are asleep - deadlock!' report of that process (a wall-clock watchdog only yields inconclusive); the observed position of the signaller's lock interval relative to the expiry is recorded per schedule")
 	r.Assume("the Go runtime's sync.Mutex, sync.Cond, timers and recover() behave as documented; a goroutine is identified by the id in runtime.Stack's header")
+	r.Assume("a data race reported between two calls that share no argument state is the library's (the harness shares nothing between goroutines while a round runs)")
 	r.Assume("Δ = 2 s of slack absorbs scheduling latency on this machine (timeouts are ≤ 200 ms for the expiry clause and 60 s for the signal clause)")
+	if strings.HasPrefix(replaySig(r.Replay), "concurrent-callers/") {
+		// replay of a finding of the concurrency layer: run that layer again (same seed, same rounds)
+		c16Concurrent(r)
+		return r.GetCount("conc_plain_calls") > 0, "the concurrency layer could not be run"
+	}
 	c16Strings(r)
 	c16Maps(r)
 	c16AssumeAssert(r)
@@ -367,6 +391,15 @@ func runC16(r *core.Run) (bool, string) {
 		c16WaitTimeoutHold(r)
 		if r.NumViolations() == 0 && r.GetCount("waittimeout_hold_lock_observed_held_across_expiry_and_call_returned") < 5 {
 			return false, "fewer than 5 schedules in which the signaller was observed holding the lock across the expiry instant"
+		}
+		c16Concurrent(r)
+		if r.NumViolations() == 0 {
+			if r.GetCount("conc_plain_calls") < 500_000 || r.GetCount("conc_plain_rounds_with_all_goroutines_running_at_once") < 8 {
+				return false, "concurrency layer (plain child): fewer than 500000 calls or fewer than 8 rounds in which all goroutines were running at once"
+			}
+			if r.GetCount("conc_race_calls") < 40_000 || r.GetCount("conc_race_rounds_with_all_goroutines_running_at_once") < 8 {
+				return false, "concurrency layer (-race child): fewer than 40000 calls or fewer than 8 rounds in which all goroutines were running at once"
+			}
 		}
 	}
 	if r.Evals() < 10000 {
